@@ -59,7 +59,7 @@ func H_kq_dirstep() {
 	got = verifCollect(wt, got)
 	verifExpect(got, nil, "entries that existed when the watch was added are never reported as Create")
 	aWatched := ka == nFile || ka == nDir
-	op := verifChoose("op", 7)
+	op := verifChoose("op", 9)
 	var want []verifKqExp
 	switch op {
 	case 0: // create a new entry
@@ -99,6 +99,22 @@ func H_kq_dirstep() {
 		verifRaise("/d", unix.NOTE_WRITE)
 		want = append(want, verifKqExp{base + "/a", Remove}, verifKqExp{base + "/a", Create})
 		verifReach("kq-dir-recreate")
+	case 7: // overwrite by rename: mv a b with b existing
+		verifAssume(ka == nFile && kb == nFile)
+		verifNodeOf2("/d/a").kind = nAbsent
+		verifRaise("/d/a", unix.NOTE_RENAME)
+		verifRaise("/d/b", unix.NOTE_DELETE) // the old b is unlinked; the name b now holds the former a
+		verifRaise("/d", unix.NOTE_WRITE)
+		want = append(want, verifKqExp{base + "/a", Rename}, verifKqExp{base + "/b", Remove}, verifKqExp{base + "/b", Create})
+		verifReach("kq-dir-overwrite")
+	case 8: // an entry is removed, then a different new entry appears, in one batch
+		verifAssume(ka == nFile)
+		verifNodeOf2("/d/a").kind = nAbsent
+		verifNodeOf2("/d/c").kind = nFile
+		verifRaise("/d/a", unix.NOTE_DELETE)
+		verifRaise("/d", unix.NOTE_WRITE)
+		want = append(want, verifKqExp{base + "/a", Remove}, verifKqExp{base + "/c", Create})
+		verifReach("kq-dir-remove-create-other")
 	case 6: // the directory changes but no entry is new (e.g. an unwatched entry went away)
 		verifRaise("/d", unix.NOTE_WRITE)
 		verifReach("kq-dir-touch")
